@@ -242,7 +242,14 @@ let judge _name ins outs =
       | Err -> VDisagree "oracle-false-on-Err"
       | Ok e ->
         (match int_of_nat (req_clause x cap m e rt) with
-         | 1 -> VPropfail ("fields_equal", "entry fields differ from the message")
+         | 1 ->
+             let msgh = msg_headers m.q_host m.q_cl m.q_te m.q_hdrs in
+             let srt l = List.sort compare l in
+             let d = List.filter_map (fun (n, b) -> if b then None else Some n)
+                 [ ("method", e.r_method = m.q_method); ("url", e.r_url = m.q_url); ("httpVersion", e.r_proto = m.q_proto);
+                   ("cookies", e.r_cookies = m.q_cookies); ("headers", srt e.r_headers = srt msgh);
+                   ("queryString", srt e.r_query = srt m.q_query) ] in
+             VPropfail ("fields_equal", "differs=" ^ String.concat "," d)
          | 2 ->
              let got = match e.r_post with None -> "none" | Some p -> "text=" ^ short p.pd_text ^ "_nparams=" ^ string_of_int (List.length p.pd_params) in
              VPropfail ("postdata_is_origin_body", Printf.sprintf "capture=%b chunked=%b body=%s got_%s" cap (is_chunked te) (short body) got)
@@ -305,7 +312,15 @@ let judge _name ins outs =
       | Err -> VPropfail ("response_dropped", why ())
       | Ok e ->
         (match int_of_nat (res_clause x cap m e rt) with
-         | 1 -> VPropfail ("fields_equal", "entry fields differ from the message")
+         | 1 ->
+             let msgh = msg_headers [] m.s_cl m.s_te m.s_hdrs in
+             let srt l = List.sort compare l in
+             let d = List.filter_map (fun (n, b) -> if b then None else Some n)
+                 [ ("status", e.e_status = m.s_status); ("httpVersion", e.e_proto = m.s_proto);
+                   ("cookies", e.e_cookies = m.s_cookies); ("headers", srt e.e_headers = srt msgh);
+                   ("redirectURL", e.e_redirect = redirect_of m.s_status m.s_hdrs);
+                   ("mimeType", e.e_content.ct_mime = hget k_ct m.s_hdrs) ] in
+             VPropfail ("fields_equal", "differs=" ^ String.concat "," d)
          | 2 -> VPropfail ("content_is_decoded_body", Printf.sprintf "%s capture=%b size=%s text=%s" (why ()) cap (dec_of_z e.e_content.ct_size) (short e.e_content.ct_text))
          | _ ->
              let explained = (match roundtrip_res x e, rt with
